@@ -12,7 +12,7 @@ from pathlib import Path
 
 from . import common
 from .common import glist
-from .c12_conv import (Conv, OutOfDomain, ref_compile, decl_findall, twin_findall, has_noncommon_named,
+from .c12_conv import (Conv, OutOfDomain, IMPOSSIBLE, ref_compile, decl_findall, twin_findall, has_noncommon_named,
                        name_in_and_out_of_quantified_list)
 
 PID = "C12"
@@ -188,6 +188,8 @@ TMPLS_C = [
     "ast.Name(id=str)", "ast.Name(id=W('n', str), ctx=ast.Load)", "ast.Name(id='x', ctx=ast.Store())",
     "ast.Call(func=ast.Name(id='f'))", "ast.Call(func=W('f'), args=[W('a'), W('a')])",
     "ast.Call(func=W('f'), args=[W('a'), W('b')])", "ast.Call(func=W('f'), args=W('args'))",
+    "ast.Name(id={str})", "ast.Constant(value={int, str})", "ast.Attribute(value={ast.Name})", "{ast.Name}",
+    "ast.Assign(targets={ast.Name}, value={ast.Constant})", "ast.Call(func={ast.Name}, args={ast.Constant})",
     "ast.Call(args={ast.Constant})", "ast.Call(args={W('a')})", "ast.Call(args={W('a', ast.Name), ast.Constant})",
     "ast.Call(args=[Star(object)], keywords=[])", "ast.Call(args=[Star(W('a'))])", "ast.Call(args=[Plus(W('a', ast.Name))])",
     "ast.Call(args=[W('a'), Star(object), W('a')])", "ast.Call(args=[Opt(W('a')), W('b'), Opt(W('a'))])",
@@ -224,6 +226,16 @@ def cases_misc(mods):
             for j, b in enumerate(nodes):
                 if type(a) is type(b) and not isinstance(a, (ast.expr_context, ast.operator, ast.cmpop)):
                     out.append({"kind": "match", "tmpl": "EMBED", "tnode": i, "source": src, "node": j})
+    # hand-built nodes (no positions / kind / ctx) against parsed nodes used as templates and against
+    # compiled patterns: _match_template_vars must skip ignored keys BEFORE the `k not in n_vars` test
+    for src in SOURCES_C[:14]:
+        nodes = list(ast.walk(ast.parse(src)))
+        for i, a in enumerate(nodes):
+            if isinstance(a, (ast.expr, ast.stmt)):
+                out.append({"kind": "match", "tmpl": "EMBED", "tnode": i, "source": src, "node": i, "strip": True})
+                for t in ("C('f({{x}}, {{y}})')", "C('{{x}} = 1')", "C('{{x}} = {{x}}')", "ast.Constant(value=1)",
+                          "ast.Name(id='x', ctx=ast.Load)", "C('{{a}} + {{b}}')"):
+                    out.append({"kind": "match", "tmpl": t, "source": src, "node": i, "strip": True})
     for src in SOURCES_C:
         n = len(list(ast.walk(ast.parse(src))))
         for t in TMPLS_C:
@@ -548,10 +560,28 @@ class Builder:
         self.trees = {}
         self.tmpls = {}
         self.tnames = {}
+        self.strips = {}
+        self.raised = Counter()
         self.skipped = Counter()
         order = mods["constants"]
         self.body_order = [c.__name__ for c in
-                           tuple({*order.AST_TYPES_WITH_BODY, *order.AST_TYPES_WITH_ORELSE})]
+                           dict.fromkeys((*order.AST_TYPES_WITH_BODY, *order.AST_TYPES_WITH_ORELSE))]
+
+    def stripped(self, src, spec, node):
+        key = (src, str(spec))
+        if key not in self.strips:
+            def go(x):
+                if isinstance(x, list):
+                    return [go(e) for e in x]
+                if not isinstance(x, ast.AST):
+                    return x
+                y = type(x)(**{k: go(v) for k, v in vars(x).items()
+                               if k not in ("lineno", "col_offset", "end_lineno", "end_col_offset", "kind", "ctx")})
+                self.conv.text_of[id(y)] = x
+                self.conv.keep.append(y)
+                return y
+            self.strips[key] = go(node)
+        return self.strips[key]
 
     def tree(self, src):
         if src not in self.trees:
@@ -573,6 +603,9 @@ class Builder:
             self.skipped["template-build-raises:" + type(self.tmpls[c["tmpl"]]).__name__] += 1
             return None
         tnode = get_node(tree, c["tnode"]) if "tnode" in c else node
+        if c.get("strip"):
+            # a hand-built node: no position attributes, no `kind`, no ctx (as rules construct them)
+            node = self.stripped(c["source"], c["node"], node)
         tmpl = tnode if c["tmpl"] == "EMBED" else self.tmpls[c["tmpl"]]
         ignore = mods["core"].DEFAULT_IGNORE
         try:
@@ -581,8 +614,8 @@ class Builder:
         except Exception as e:  # noqa
             m, crash = None, type(e).__name__
         if crash:
-            self.skipped["impl-raises:" + crash] += 1
-            return None
+            # the model is total: an exception of the implementation is a disagreement
+            self.raised["impl-raises:" + crash] += 1
         try:
             ids = conv.name_ids(tmpl)
             tk = ("E", conv.uid(tnode)) if c["tmpl"] == "EMBED" else c["tmpl"]
@@ -590,7 +623,8 @@ class Builder:
                 self.tnames[tk] = conv.define(f"t_{len(self.tnames)}", conv.tmpl(tmpl, ignore, ids))
             t = self.tnames[tk]
             v = conv.value(node)
-            e = conv.expected(m, ids, skip_root=isinstance(m[0], list) and isinstance(tmpl, (list, tuple)) if m else False)
+            e = IMPOSSIBLE if crash else conv.expected(
+                m, ids, skip_root=isinstance(m[0], list) and isinstance(tmpl, (list, tuple)) if m else False)
         except OutOfDomain as ex:
             self.skipped["out-of-domain:" + str(ex).split(":")[0]] += 1
             return None
@@ -771,20 +805,35 @@ FINDING_WITNESS = {
 # ---------------------------------------------------------------------------------------------
 
 
+GLUE_KW = [   # (pattern, keyword arguments of compile_template): typed wildcards, expand, keep_expr
+    ("x = {{v}}", {"v": int}), ("x = {{v}}", {"v": ast.Constant}), ("{{f}}({{a}})", {"f": (ast.Name, ast.Attribute)}),
+    ("f({{a*}}, {{b}})", {"a": ast.Constant, "b": ast.Name}), ("{{x}}.{{y}}", {"x": ast.Name, "y": str}),
+    ("f({{a}})", {"expand": "a"}), ("f({{a}})", {"expand": ("a", "b")}), ("f({{a}}, k={{b}})", {"expand": "b"}),
+    ("[{{a}}]", {"expand": "a"}), ("f({{a}})\ng([{{b}}])", {"expand": ("a", "b")}), ("f({{a}})", {"expand": "a", "a": ast.Name}),
+    ("from m import {{n}}", {"expand": "n"}), ("def_ = ({{a}},)", {"expand": "a"}), ("f({{a}}, {{b}})", {"expand": "a"}),
+    ("f([{{a}}], {{a}})", {"expand": "a"}),
+    # wildcards typed by an AST instance (positions / ctx of the instance are not part of the pattern)
+    ("f({{x}})", {"x": ast.Name(id="y", ctx=ast.Load())}), ("{{x}}", {"x": ast.Name(id="y", ctx=ast.Load())}),
+    ("{{x}}\nz = 1", {"x": ast.Constant(value=1)}), ("{{x}}\n{{y}}", {"x": ast.Attribute(value=ast.Name(id="a"), attr="b"), "y": ast.stmt}),
+    ("z = {{x}}", {"x": ast.parse("a + 1").body[0].value}), ("{{x}}\nz = 1", {"x": ast.Call}),
+]
+
+
 def compile_glue_check(mods, conv, patterns):
     """real compile_template vs the independent reference, compared through the template converter"""
     core = mods["core"]
     bad, n = [], 0
-    for pat in patterns:
+    for pat in list(patterns) + GLUE_KW:
+        pat, kw = pat if isinstance(pat, tuple) else (pat, {})
         try:
-            ref = ref_compile(core, pat)
+            ref = ref_compile(core, pat, **kw)
         except (OutOfDomain, SyntaxError):
             continue
         try:
             with common.quiet():
-                real = core.compile_template(pat)
+                real = core.compile_template(pat, **kw)
         except Exception as e:  # noqa
-            bad.append({"pattern": pat, "real": "raises " + type(e).__name__, "reference": "compiles"})
+            bad.append({"pattern": pat, "kwargs": str(kw), "real": "raises " + type(e).__name__, "reference": "compiles"})
             continue
         try:
             rl = real if isinstance(real, list) else [real]
@@ -796,7 +845,7 @@ def compile_glue_check(mods, conv, patterns):
             continue
         n += 1
         if a != b:
-            bad.append({"pattern": pat, "real": a, "reference": b})
+            bad.append({"pattern": pat, "kwargs": str(kw), "real": a, "reference": b})
     return n, bad
 
 
@@ -975,7 +1024,7 @@ def check(run: common.Run):
         samples=[specs[0], specs[len(specs) // 2], nested[0], specs[-1], sspecs[0], sspecs[-1],
                  {"family_items": [fam_item_exprs()[i] for i in (3, 12, 8)]}],
         exhaustive=False, exhaustive_family_itemlists_upto=2, family_cases=n_family,
-        histogram=dict(hist), skipped=dict(B.skipped),
+        histogram=dict(hist), skipped=dict(B.skipped), implementation_raised=dict(B.raised),
         correspondence_disagreements=len(disagreements), glue_patterns_compared=n_glue, glue_disagreements=len(glue_bad),
         sweep={"cases": len(sweep), "corpus_cases": corpus_n, "unexplained_failures": len(failures),
                "matched_known": dict(matched)},
